@@ -5,8 +5,8 @@
 (* start (the check prepends the setPathPrefix call).  The back end is scheduled canonically here (everything is   *)
 (* handed over during disable()): batch boundaries are the real pipe's business, they are not part of a script.    *)
 EXTENDS TraceSink, Json
-CONSTANTS Depth, GThreads, GEx, GMax
-Pairs == {<<"f", "a">>, <<"g", "b">>, <<"f", "b">>}      \* (name, module) of a commit
+CONSTANTS Depth, GThreads, GEx, GMax, GOps
+Pairs == {<<"f", "a", 1>>, <<"g", "b", 1>>, <<"f", "b", 2>>}      \* (name, module, line) of a commit
 VARIABLES hist, nk
 gvars == <<vars, hist, nk>>
 H(e) == hist' = Append(hist, e)
@@ -21,16 +21,16 @@ GInit == /\ ctl = [dir |-> 1, en |-> FALSE, up |-> FALSE, infl |-> 0, pc |-> "id
          /\ hist = <<>> /\ nk = [t \in Threads |-> 0]
 Call ==
   /\ Returned /\ Len(hist) < Depth
-  /\ \/ ~ctl.en /\ Prefix(TRUE) /\ H(E("prefix", 0, "", "", "", 0)) /\ UNCHANGED nk
-     \/ Rm("names") /\ H(E("rm", 0, "", "", "names", 0)) /\ UNCHANGED nk
+  /\ \/ "prefix" \in GOps /\ ~ctl.en /\ Prefix(TRUE) /\ H(E("prefix", 0, "", "", "", 0)) /\ UNCHANGED nk
+     \/ "rm" \in GOps /\ Rm("names") /\ H(E("rm", 0, "", "", "names", 0)) /\ UNCHANGED nk
      \/ EnableBegin /\ H(E("enable", 0, "", "", "", 0)) /\ UNCHANGED nk
      \/ DisableBegin /\ H(E("disable", 0, "", "", "", 0)) /\ UNCHANGED nk
-     \/ \E s \in {"permit", "reject"} : s # flt.s /\ SetBegin("strat", s) /\ H(E("set", 0, "", "", "strat", s)) /\ UNCHANGED nk
+     \/ \E s \in {"permit", "reject"} : "strat" \in GOps /\ s # flt.s /\ SetBegin("strat", s) /\ H(E("set", 0, "", "", "strat", s)) /\ UNCHANGED nk
      \/ \E x \in GEx : x # flt.x /\ SetBegin("exempt", x) /\ H(E("set", 0, "", "", "exempt", x)) /\ UNCHANGED nk
      \/ \E m \in GMax : m # flt.max /\ SetBegin("max", m) /\ H(E("set", 0, "", "", "max", m)) /\ UNCHANGED nk
      \/ \E t \in GThreads, p \in Pairs :
-          /\ CBegin(t, [t |-> t, k |-> nk[t] + 1, nm |-> <<p[1], 0, 1>>, mod |-> p[2], ts |-> 10 * (Len(hist) + 1), dur |-> nk[t] + 1])
-          /\ nk' = [nk EXCEPT ![t] = @ + 1] /\ H(E("commit", t, p[1], p[2], "", 0))
+          /\ CBegin(t, [t |-> t, k |-> nk[t] + 1, nm |-> <<p[1], 0, p[3]>>, mod |-> p[2], ts |-> 10 * (Len(hist) + 1), dur |-> nk[t] + 1])
+          /\ nk' = [nk EXCEPT ![t] = @ + 1] /\ H(E("commit", t, p[1], p[2], "", p[3]))
 Step == /\ UNCHANGED <<hist, nk>>
         /\ \/ E2 \/ D1 \/ D2 \/ D3 \/ S1
            \/ \E t \in Threads : C1(t) \/ C2(t) \/ C3(t) \/ C5(t) \/ Front(t, 50)
